@@ -1,6 +1,342 @@
 /-
-placeholder replaced below in this session (C07 model) — keeps `m_host` linking while C05 is wired
+Resource and handle ownership of generated Rust bindings (C07).  Import-free.
+
+Two things live here.
+
+**Spec side (`HostSpec`)** — the component-model host's view of one guest instance: its handle table
+(own / scoped-borrow entries), the exported resources that are alive, and the rules every canonical
+built-in and every lift/lower of a handle obeys.  It replays a *trace* recorded from a native run
+and rejects the first event a real host would trap on (or that the host itself must not do).
+
+**Model of the glue (`Sys`)** — the generated code of crates/rust/src/{lib.rs (Resource<T>),
+interface.rs (type_resource), bindgen.rs (HandleLift/HandleLower, handle_decls)} together with
+safe user code, as a transition system over the same events:
+  * a *cell* is one live `Resource<T>` wrapper value (`from_handle`); `take_handle` (lowering an
+    `own`) ends it without a `resource-drop`, `Drop` ends it with exactly one `resource-drop`,
+    `handle()` (lowering a `borrow`, calling a method) leaves it alone;
+  * borrows of imported resources received by an export are *temporary* cells of the glue
+    (`handle_decls`), ended before the export returns; borrows of exported resources are bare
+    representation pointers — no cell, no built-in call;
+  * `Res::new(val)` boxes the user's value (a live *rep*) and asks the host for a handle;
+    the `[dtor]` export unboxes and drops it.
+`Sys.step` answers `ok s'`, `trap` (the host / the heap rejects what the glue does: a violation of
+C07) or `disabled` (the model cannot produce this event here).  Props/C07.lean proves that no
+reachable state can trap and derives the six ownership statements; `runScript` checks that a
+recorded native trace is accepted by `HostSpec` and is a trace of `Sys`.
 -/
 namespace Witverif.Abi.Resource
-def runScript (_s : String) : String := "unimplemented"
+
+/-! ### tiny association lists (keys `Nat`) -/
+
+abbrev Map (α : Type) := List (Nat × α)
+
+def Map.get {α : Type} : Map α → Nat → Option α
+  | [], _ => none
+  | (k, v) :: m, x => if k = x then some v else Map.get m x
+
+def Map.del {α : Type} : Map α → Nat → Map α
+  | [], _ => []
+  | (k, v) :: m, x => if k = x then Map.del m x else (k, v) :: Map.del m x
+
+def Map.put {α : Type} (m : Map α) (k : Nat) (v : α) : Map α := (k, v) :: m.del k
+
+abbrev NSet := Map Unit
+def NSet.has (s : NSet) (x : Nat) : Bool := (Map.get s x).isSome
+
+/-! ### events of a history -/
+
+inductive Res where
+  | imp (obj : Nat)      -- resource implemented by the host (imported by the guest)
+  | exp (rep : Nat)      -- resource implemented by the guest (exported), identified by its representation
+deriving DecidableEq, Repr
+
+def Res.isExp : Res → Bool
+  | .exp _ => true
+  | .imp _ => false
+
+inductive Entry where
+  | own (r : Res)
+  | borrow (r : Res) (scope : Nat)
+deriving DecidableEq, Repr
+
+inductive Ev where
+  | ownPlus (h : Nat) (r : Res)             -- host lowers an `own` into the guest (export argument / import result)
+  | borPlus (h : Nat) (r : Res) (k : Nat)   -- host lowers a `borrow` of an imported resource, scoped to export call k
+  | callBegin (k : Nat)
+  | callEnd (k : Nat)
+  | ownMinus (h : Nat)                      -- guest lowers an `own` (import argument / export result): `take_handle`
+  | lend (h : Nat)                          -- guest lowers a `borrow` (import argument, method receiver): `handle()`
+  | new (h : Nat) (rep : Nat)               -- `[resource-new](rep)` answered with h
+  | rep (h : Nat) (rep : Nat)               -- `[resource-rep](h)` answered with rep
+  | drop (h : Nat)                          -- `[resource-drop](h)`; for an own handle of an exported resource the
+                                            --   host runs `[dtor]` at once (folded into this event by `fold`)
+  | hostDrop (rep : Nat)                    -- the host drops an exported resource it owns: `[dtor](rep)`
+  | use (rep : Nat)                         -- host passes a borrow of an exported resource (method receiver, argument)
+  | done                                    -- every Rust value has been dropped, the host has dropped what it owned
+deriving DecidableEq, Repr
+
+/-! ### spec side: the host -/
+
+structure Host where
+  table : Map Entry := []
+  live : NSet := []          -- exported resources not yet destroyed
+  scopes : NSet := []        -- open export calls
+deriving Repr
+
+namespace HostSpec
+
+def tableHasRep (t : Map Entry) (rep : Nat) : Bool := t.any fun (_, e) => e == .own (.exp rep)
+
+/-- one event against the host's rules; `Except.error` = trap / protocol violation -/
+def step (s : Host) : Ev → Except String Host
+  | .ownPlus h r =>
+      if (s.table.get h).isSome then .error "host reuses a live index" else
+      match r with
+      | .exp rep =>
+          if !s.live.has rep then .error "own handle of a destroyed resource"
+          else if tableHasRep s.table rep then .error "second own handle to the same exported resource"
+          else .ok { s with table := s.table.put h (.own r) }
+      | .imp _ => .ok { s with table := s.table.put h (.own r) }
+  | .borPlus h r k =>
+      if (s.table.get h).isSome then .error "host reuses a live index"
+      else if !s.scopes.has k then .error "borrow outside a call"
+      else .ok { s with table := s.table.put h (.borrow r k) }
+  | .callBegin k => if s.scopes.has k then .error "call id reused" else .ok { s with scopes := s.scopes.put k () }
+  | .callEnd k =>
+      if !s.scopes.has k then .error "return from unknown call"
+      else if s.table.any (fun (_, e) => match e with | .borrow _ k' => k' == k | _ => false) then
+        .error "trap: borrow handle still present when the export returns"
+      else .ok { s with scopes := s.scopes.del k }
+  | .ownMinus h =>
+      match s.table.get h with
+      | some (.own _) => .ok { s with table := s.table.del h }
+      | some (.borrow _ _) => .error "trap: borrow handle passed as own"
+      | none => .error "trap: own transfer of an index the guest does not hold"
+  | .lend h => if (s.table.get h).isSome then .ok s else .error "trap: borrow of an index the guest does not hold"
+  | .new h rep =>
+      if (s.table.get h).isSome then .error "host reuses a live index"
+      else if s.live.has rep then .error "resource.new on a representation that is already live"
+      else .ok { s with table := s.table.put h (.own (.exp rep)), live := s.live.put rep () }
+  | .rep h rep =>
+      match s.table.get h with
+      | some (.own (.exp r)) => if r = rep then .ok s else .error "resource.rep answered with another representation"
+      | _ => .error "trap: resource.rep on an index that is not an own handle of an exported resource"
+  | .drop h =>
+      match s.table.get h with
+      | some (.own (.exp rep)) =>
+          if s.live.has rep then .ok { s with table := s.table.del h, live := s.live.del rep }
+          else .error "destructor of a destroyed resource"
+      | some _ => .ok { s with table := s.table.del h }
+      | none => .error "trap: resource.drop of an index the guest does not hold"
+  | .hostDrop rep =>
+      if !s.live.has rep then .error "destructor of a destroyed resource"
+      else if tableHasRep s.table rep then .error "host drops a resource whose own handle the guest holds"
+      else .ok { s with live := s.live.del rep }
+  | .use rep => if s.live.has rep then .ok s else .error "host lends a destroyed resource"
+  | .done =>
+      if s.table.isEmpty && s.live.isEmpty && s.scopes.isEmpty then .ok s
+      else .error "handles / resources / calls left over at the end"
+
+def run (s : Host) : List Ev → Except (Nat × String) Host
+  | [] => .ok s
+  | e :: es =>
+      match step s e with
+      | .ok s' => (run s' es).mapError fun (i, m) => (i + 1, m)
+      | .error m => .error (0, m)
+
+end HostSpec
+
+/-! ### model of the glue + safe user code -/
+
+/-- one live `Resource<T>` wrapper value (keyed by the handle it holds) -/
+structure Cell where
+  exported : Bool          -- wrapper of the guest's own (exported) resource type
+  temp : Option Nat        -- `some k`: glue temporary for a borrowed argument of export call k
+deriving DecidableEq, Repr
+
+structure Sys where
+  table : Map Entry := []     -- the host's table for this guest
+  cells : Map Cell := []      -- live wrapper values, by handle
+  heap : NSet := []           -- reps holding a live user value (`Box<Option<T>>`)
+  hostOwned : NSet := []      -- exported resources whose own handle the host holds
+  scopes : NSet := []
+deriving Repr
+
+inductive Outcome where
+  | ok (s : Sys)
+  | trap (why : String)        -- the host or the heap rejects what the glue / user code does: C07 is violated
+  | disabled (why : String)    -- this event is not a possible next event of the model in this state
+deriving Repr
+
+def hasBorrowOf (t : Map Entry) (k : Nat) : Bool :=
+  t.any fun (_, e) => match e with | .borrow _ k' => k' == k | _ => false
+def hasTempOf (c : Map Cell) (k : Nat) : Bool :=
+  c.any fun (_, x) => x.temp == some k
+
+namespace Sys
+
+/-- the transition function.  Host-initiated events are enabled under the host's own rules
+(a correct host); guest-initiated events are enabled by the guest's state (which wrapper values
+exist) and then *checked* against the host's table and the heap. -/
+def step (s : Sys) : Ev → Outcome
+  | .ownPlus h r =>
+      if (s.table.get h).isSome || (s.cells.get h).isSome then .disabled "index in use" else
+      match r with
+      | .exp rep =>
+          if !s.hostOwned.has rep then .disabled "host does not own this resource"
+          else .ok { s with table := s.table.put h (.own r), cells := s.cells.put h ⟨true, none⟩,
+                            hostOwned := s.hostOwned.del rep }
+      | .imp _ => .ok { s with table := s.table.put h (.own r), cells := s.cells.put h ⟨false, none⟩ }
+  | .borPlus h r k =>
+      if (s.table.get h).isSome || (s.cells.get h).isSome then .disabled "index in use"
+      else if r.isExp then .disabled "borrows of exported resources are representations, not handles"
+      else if !s.scopes.has k then .disabled "no such call"
+      else .ok { s with table := s.table.put h (.borrow r k), cells := s.cells.put h ⟨false, some k⟩ }
+  | .callBegin k => if s.scopes.has k then .disabled "call id in use" else .ok { s with scopes := s.scopes.put k () }
+  | .callEnd k =>
+      if !s.scopes.has k then .disabled "no such call"
+      -- control flow of the glue: the `handle_decls` temporaries go out of scope before it returns
+      else if hasTempOf s.cells k then .disabled "the glue has not dropped its temporaries yet"
+      else if hasBorrowOf s.table k then .trap "borrow handle still present when the export returns"
+      else .ok { s with scopes := s.scopes.del k }
+  | .ownMinus h =>
+      match s.cells.get h with
+      | some ⟨_, none⟩ =>
+          match s.table.get h with
+          | some (.own (.exp rep)) =>
+              .ok { s with table := s.table.del h, cells := s.cells.del h, hostOwned := s.hostOwned.put rep () }
+          | some (.own (.imp _)) => .ok { s with table := s.table.del h, cells := s.cells.del h }
+          | _ => .trap "own transfer of an index the guest does not own"
+      | _ => .disabled "no owned wrapper value holds this handle"
+  | .lend h =>
+      match s.cells.get h with
+      | some _ => if (s.table.get h).isSome then .ok s else .trap "borrow of an index the guest does not hold"
+      | none => .disabled "no wrapper value holds this handle"
+  | .new h rep =>
+      if (s.table.get h).isSome || (s.cells.get h).isSome then .disabled "index in use"
+      else if s.heap.has rep then .disabled "the allocator returned a live address"
+      else .ok { s with table := s.table.put h (.own (.exp rep)), cells := s.cells.put h ⟨true, none⟩,
+                        heap := s.heap.put rep () }
+  | .rep h rep =>
+      match s.cells.get h with
+      | some ⟨true, none⟩ =>
+          match s.table.get h with
+          | some (.own (.exp r)) =>
+              if r ≠ rep then .disabled "host answered with another representation"
+              else if s.heap.has rep then .ok s else .trap "use of a destroyed representation"
+          | _ => .trap "resource.rep on an index that is not an own handle of the exported resource"
+      | _ => .disabled "no wrapper value of the exported resource holds this handle"
+  | .drop h =>
+      match s.cells.get h with
+      | some c =>
+          match s.table.get h with
+          | some (.own (.exp rep)) =>
+              -- the host runs the destructor at once: `Box::from_raw(rep)` is dropped
+              if s.heap.has rep then .ok { s with table := s.table.del h, cells := s.cells.del h, heap := s.heap.del rep }
+              else .trap "destructor on a destroyed representation (double free)"
+          | some _ => .ok { s with table := s.table.del h, cells := s.cells.del h }
+          | none => let _ := c; .trap "resource.drop of an index the guest does not hold"
+      | none => .disabled "no wrapper value holds this handle"
+  | .hostDrop rep =>
+      if !s.hostOwned.has rep then .disabled "host does not own this resource"
+      else if s.heap.has rep then .ok { s with hostOwned := s.hostOwned.del rep, heap := s.heap.del rep }
+      else .trap "destructor on a destroyed representation (double free)"
+  | .use rep =>
+      if !s.hostOwned.has rep then .disabled "host does not own this resource"
+      else if s.heap.has rep then .ok s else .trap "use of a destroyed representation"
+  | .done =>
+      if !s.cells.isEmpty then .disabled "Rust values are still alive"
+      else if !s.hostOwned.isEmpty then .disabled "the host still owns resources"
+      else if !s.scopes.isEmpty then .disabled "calls still open"
+      else if !s.table.isEmpty then .trap "handles leaked: the table is not empty although no Rust value is alive"
+      else if !s.heap.isEmpty then .trap "user values leaked: representations alive without any handle"
+      else .ok s
+
+inductive RunResult where
+  | ok (s : Sys)
+  | trap (at_ : Nat) (why : String)
+  | disabled (at_ : Nat) (why : String)
+
+def run (s : Sys) : List Ev → Nat → RunResult
+  | [], _ => .ok s
+  | e :: es, i =>
+      match step s e with
+      | .ok s' => run s' es (i + 1)
+      | .trap w => .trap i w
+      | .disabled w => .disabled i w
+
+end Sys
+
+/-! ### reading a recorded trace
+
+Raw trace (what checks/C07.py records), `;`-separated:
+`own+ h i:o|e:rep` `bor+ h i:o k` `call+ k` `call- k` `own- h` `lend h` `new h rep` `rep h rep`
+`drop h` `dtor rep` `udrop id` `use rep` `end`.
+`fold` turns `drop h; dtor rep; udrop _` (own handle of an exported resource) into `drop h`, and a
+stand-alone `dtor rep; udrop _` into `hostDrop rep`; anything else about dtor/udrop is malformed. -/
+
+inductive Raw where
+  | ev (e : Ev)
+  | dtor (rep : Nat)
+  | udrop (id : Nat)
+deriving Repr
+
+def parseRes (s : String) : Option Res :=
+  match s.splitOn ":" with
+  | ["i", o] => o.toNat?.map .imp
+  | ["e", r] => r.toNat?.map .exp
+  | _ => none
+
+def parseRaw (s : String) : Option Raw :=
+  match s.splitOn " " with
+  | ["own+", h, r] => do pure (.ev (.ownPlus (← h.toNat?) (← parseRes r)))
+  | ["bor+", h, r, k] => do pure (.ev (.borPlus (← h.toNat?) (← parseRes r) (← k.toNat?)))
+  | ["call+", k] => k.toNat?.map fun k => .ev (.callBegin k)
+  | ["call-", k] => k.toNat?.map fun k => .ev (.callEnd k)
+  | ["own-", h] => h.toNat?.map fun h => .ev (.ownMinus h)
+  | ["lend", h] => h.toNat?.map fun h => .ev (.lend h)
+  | ["new", h, r] => do pure (.ev (.new (← h.toNat?) (← r.toNat?)))
+  | ["rep", h, r] => do pure (.ev (.rep (← h.toNat?) (← r.toNat?)))
+  | ["drop", h] => h.toNat?.map fun h => .ev (.drop h)
+  | ["dtor", r] => r.toNat?.map .dtor
+  | ["udrop", i] => i.toNat?.map .udrop
+  | ["use", r] => r.toNat?.map fun r => .ev (.use r)
+  | ["end"] => some (.ev .done)
+  | _ => none
+
+/-- fold destructor runs into the event that causes them, tracking which handles are own handles of
+exported resources (only what is needed to tell the two forms of `dtor` apart) -/
+def fold : List Raw → Map Nat → Option (List Ev)
+  | [], _ => some []
+  | .ev (.drop h) :: rest, expOwn =>
+      match expOwn.get h with
+      | some rep =>
+          match rest with
+          | .dtor r :: .udrop _ :: rest' => if r = rep then (fold rest' (expOwn.del h)).map (Ev.drop h :: ·) else none
+          | _ => none
+      | none => (fold rest expOwn).map (Ev.drop h :: ·)
+  | .dtor r :: .udrop _ :: rest, expOwn => (fold rest expOwn).map (Ev.hostDrop r :: ·)
+  | .dtor _ :: _, _ => none
+  | .udrop _ :: _, _ => none
+  | .ev (.ownPlus h (.exp rep)) :: rest, expOwn => (fold rest (expOwn.put h rep)).map (Ev.ownPlus h (.exp rep) :: ·)
+  | .ev (.new h rep) :: rest, expOwn => (fold rest (expOwn.put h rep)).map (Ev.new h rep :: ·)
+  | .ev (.ownMinus h) :: rest, expOwn => (fold rest (expOwn.del h)).map (Ev.ownMinus h :: ·)
+  | .ev e :: rest, expOwn => (fold rest expOwn).map (e :: ·)
+
+/-- `resource|<trace>` of the driver `m_host` -/
+def runScript (s : String) : String :=
+  match (s.splitOn ";").mapM parseRaw with
+  | none => "unparsable-trace"
+  | some raws =>
+    match fold raws [] with
+    | none => "malformed: a destructor run / user drop that is not caused by a drop of an exported resource's own handle"
+    | some evs =>
+      match HostSpec.run {} evs with
+      | .error (i, m) => "host-spec rejects event " ++ toString i ++ " (" ++ toString (repr (evs.getD i .done)) ++ "): " ++ m
+      | .ok _ =>
+        match Sys.run {} evs 0 with
+        | .ok _ => "ok"
+        | .trap i w => "model traps at event " ++ toString i ++ ": " ++ w
+        | .disabled i w => "not a trace of the glue model, event " ++ toString i ++ " (" ++ toString (repr (evs.getD i .done)) ++ "): " ++ w
+
 end Witverif.Abi.Resource
